@@ -70,6 +70,10 @@ def _seeded_mutants(prop):
         if prop in meta.get("checks_reporting_it", []):
             out.append({"name": "seeded-" + d, "patch": pp, "expect": "violated", "rule": prop, "canary": False,
                         "what": "independently seeded change %s (target property %s)" % (d, meta.get("property"))})
+        elif prop == meta.get("property") and prop in meta.get("checks_undecided_on_it", []):
+            # the target check cannot decide this change (exit 2): it must at least never call the changed tree clean
+            out.append({"name": "seeded-" + d, "patch": pp, "expect": "not-clean", "rule": prop, "canary": False,
+                        "what": "independently seeded change %s: answered undecided, must not pass silently" % d})
         for b in meta.get("benign_parts", []):
             bp = os.path.join(root, d, b["file"])
             if prop in b.get("clean_for", []) and os.path.isfile(bp):
@@ -135,7 +139,7 @@ def _run_one(args):
         rules = sorted({o.rule for o in viol})
         res = {"name": m["name"], "violated_rules": rules, "undecided": len(und) + len(floors),
                "details": [("%s @%s: %s" % (o.rule, o.site, o.detail))[:240] for o in (viol + und)[:4]]}
-        if m["expect"] == "violated":
+        if m["expect"] in ("violated", "not-clean"):
             want = m.get("rule", prop)
             if any(r.startswith(want) for r in rules):
                 res["outcome"] = "killed"
@@ -184,6 +188,9 @@ def run(prop, mod, repo, tier, seed, jobs):
                     r["name"], r["outcome"], m.get("rule", prop)))
             if r["outcome"] == "broken-mutant":
                 failures.append("mutant '%s' %s" % (r["name"], r.get("why")))
+        elif m["expect"] == "not-clean":
+            if r["outcome"] == "survived":
+                failures.append("seeded change '%s' passes silently (it was answered undecided when collected): the check lost what made it hesitate" % r["name"])
         elif m["expect"] == "no-alarm":
             if r["outcome"] == "false-alarm":
                 failures.append("behaviour-preserving refactoring '%s' is reported as a violation: %s" % (r["name"], "; ".join(r.get("details", []))))
